@@ -50,11 +50,11 @@ theorem piece_insert (pc : Spec.Piece) (hv : pc.Valid) (hnr : NoRepeatLeaf pc.se
     cases down with
     | true =>
       refine ⟨_, by rw [hins]; exact List.mem_cons_self, ?_⟩
-      simp [pieceOf, Vertex.ia?, hl]
+      simp [pieceOf, GEdge.consDir, Vertex.ia?, hl]
     | false =>
       refine ⟨(.as leaf, .as a.ia, ⟨numberOfHops s.seg 0 false, 0, none⟩), by rw [hins]; simp, ?_⟩
       have hne : a.ia ≠ leaf := hnr (a, 0) hxmem (by simp only; omega) leaf hl
-      simp [pieceOf, Vertex.ia?, hl, hne]
+      simp [pieceOf, GEdge.consDir, Vertex.ia?, hl, hne]
   | false =>
     have hins : inserts s = nonCoreInserts s.seg := by simp [inserts, hcore]
     cases peer with
@@ -76,11 +76,11 @@ theorem piece_insert (pc : Spec.Piece) (hv : pc.Valid) (hnr : NoRepeatLeaf pc.se
       cases down with
       | true =>
         refine ⟨(.as a.ia, .as leaf, ⟨numberOfHops s.seg cut false, cut, none⟩), hmemA _ (by simp), ?_⟩
-        simp [pieceOf, Vertex.ia?, hl]
+        simp [pieceOf, GEdge.consDir, Vertex.ia?, hl]
       | false =>
         refine ⟨(.as leaf, .as a.ia, ⟨numberOfHops s.seg cut false, cut, none⟩), hmemA _ (by simp), ?_⟩
         have hne : a.ia ≠ leaf := hnr (a, cut) hxmem (by unfold Seg.len; simpa using hlink) leaf hl
-        simp [pieceOf, Vertex.ia?, hl, hne]
+        simp [pieceOf, GEdge.consDir, Vertex.ia?, hl, hne]
     | some pi =>
       rcases hv.peer_ok pi rfl with ⟨q, hq⟩
       have hq' : a.peers[pi]? = some q := by
@@ -100,10 +100,10 @@ theorem piece_insert (pc : Spec.Piece) (hv : pc.Valid) (hnr : NoRepeatLeaf pc.se
       cases down with
       | true =>
         refine ⟨_, hmemP _ (List.mem_cons_of_mem _ List.mem_cons_self), ?_⟩
-        simp [pieceOf, Vertex.ia?, hl]
+        simp [pieceOf, GEdge.consDir, Vertex.ia?, hl]
       | false =>
         refine ⟨_, hmemP _ List.mem_cons_self, ?_⟩
-        simp [pieceOf, Vertex.ia?, hl]
+        simp [pieceOf, GEdge.consDir, Vertex.ia?, hl]
 
 /-- hypotheses on the given segments under which the multigraph contains every valid piece -/
 structure GraphFaithful (segs : List InSeg) : Prop where
@@ -132,6 +132,9 @@ theorem foldl_stepSol_edges : ∀ (es : List GEdge) (s : Sol), (es.foldl stepSol
   induction es with
   | nil => intro s; simp
   | cons e rest ih => intro s; simp [ih, stepSol]
+
+theorem usesOk_three {a b c : Spec.Use} (h : Spec.usesOk [a, b, c] = true) : Spec.usesOk [a, b] = true := by
+  revert h; cases a <;> cases b <;> cases c <;> decide
 
 /-- a valid combination whose intermediate joints are not the destination is a candidate solution -/
 theorem combo_candidate {segs : List InSeg} (hg : GraphFaithful segs) {src dst : Nat} {c : List Spec.Piece}
@@ -175,11 +178,11 @@ theorem combo_candidate {segs : List InSeg} (hg : GraphFaithful segs) {src dst :
         intro hd
         apply hmid (pieceOf e1) (by simp)
         rw [h1.2, hd]; rfl
-      simp only [List.map_cons, List.map_nil, Function.comp, Spec.kindsOk] at hk
+      simp only [List.map_cons, List.map_nil, Function.comp, pieceOf_use] at hk
       refine ⟨⟨hmem e1 List.mem_cons_self, by rw [jointOf_as hstart]; rfl, rfl⟩, hm1, ?_⟩
       refine ⟨⟨hmem e2 (by simp), by simp [stepSol, hlink], ?_⟩, jointOf_as hfin'⟩
-      simp only [stepSol, Sol.new, List.nil_append, validNext, valid2]
-      revert hk; simp [pieceOf]
+      simp only [stepSol, Sol.new, List.nil_append, validNext]
+      rw [valid2_iff]; exact hk
     | [e1, e2, e3], hmem, hsrc, hstart, hfin, hchain, hk, hmid =>
       simp only [List.map_cons, List.map_nil, List.head?_cons, Option.bind_some] at hstart hfin
       have h1 := hsrc e1 List.mem_cons_self
@@ -203,15 +206,23 @@ theorem combo_candidate {segs : List InSeg} (hg : GraphFaithful segs) {src dst :
         intro hd
         apply hmid (pieceOf e2) (by simp)
         rw [h2.2, hd]; rfl
-      simp only [List.map_cons, List.map_nil, Function.comp, Spec.kindsOk] at hk
+      simp only [List.map_cons, List.map_nil, Function.comp, pieceOf_use] at hk
+      have hab : valid2 e1.seg.core e1.consDir e2.seg.core e2.consDir = true := by
+        rw [valid2_iff]; exact usesOk_three hk
       refine ⟨⟨hmem e1 List.mem_cons_self, by rw [jointOf_as hstart]; rfl, rfl⟩, hm1, ?_⟩
       refine ⟨⟨hmem e2 (by simp), by simp [stepSol, hlink1], ?_⟩, hm2, ?_⟩
-      · simp only [stepSol, Sol.new, List.nil_append, validNext, valid2]
-        revert hk; simp [pieceOf]; cases e1.seg.core <;> cases e2.seg.core <;> cases e3.seg.core <;> simp
+      · simp only [stepSol, Sol.new, List.nil_append, validNext]
+        exact hab
       · refine ⟨⟨hmem e3 (by simp), by simp [stepSol, hlink2], ?_⟩, jointOf_as hfin'⟩
-        simp only [stepSol, Sol.new, List.nil_append, List.cons_append, validNext, valid3]
-        revert hk; simp [pieceOf]
-    | _ :: _ :: _ :: _ :: _, _, _, _, _, _, hk, _ => simp [Spec.kindsOk] at hk
+        simp only [stepSol, Sol.new, List.nil_append, List.cons_append, validNext]
+        rw [valid3_iff _ _ _ _ _ _ hab]; exact hk
+    | e1 :: e2 :: e3 :: e4 :: _, _, _, _, _, _, hk, _ =>
+      exfalso
+      simp only [List.map_cons, Function.comp, pieceOf_use, Spec.usesOk, Bool.and_eq_true, decide_eq_true_eq] at hk
+      have h1 := hk.1; have h2 := hk.2.1; have h3 := hk.2.2.1
+      revert h1 h2 h3
+      cases useOf e1.seg.core e1.consDir <;> cases useOf e2.seg.core e2.consDir <;>
+        cases useOf e3.seg.core e3.consDir <;> cases useOf e4.seg.core e4.consDir <;> simp [Spec.Use.rank]
   -- choose the edges
   have choose : ∀ (ps : List Spec.Piece), (∀ p ∈ ps, ∃ e ∈ graphOf segs, pieceOf e = p) →
       ∃ es : List GEdge, es.map pieceOf = ps ∧ ∀ e ∈ es, e ∈ graphOf segs := by
